@@ -53,7 +53,7 @@ def main():
     checks = sys.argv[5:] or ['%s quick' % prop]
     patch = os.path.join(seed, 'patch.diff')
     demo = os.path.join(seed, 'demo.xr')
-    meta = {'property': prop, 'name': name, 'ran': []}
+    meta = {'property': prop, 'name': name, 'ran': [], 'applies_to_repo_commit': sh('git -C /repo log -1 --format=%h')[1].strip()}
     assert sh('git -C /repo status --porcelain --untracked-files=no')[1].strip() == '', '/repo is dirty'
     # 1. tests in the scratch worktree with the change
     rc, out = sh('git apply %s' % patch, cwd=wt)
